@@ -1,10 +1,18 @@
-"""Monitor-discipline rules for MessagesQueue, shared by C07 and C17."""
+"""Monitor-discipline rules for the request queue, shared by C07, C11 and C17.
+
+The rules do not depend on how the queue's entries are represented (an enum with an element and a token variant, an
+`Option<T>` whose `None` is the token, ...), on the names of its private fields, or on whether the code of a method sits in the
+method itself or in private helpers: every API method of the queue type is analysed with its helpers and the small std
+combinators spliced in (inline.py), and what a consumer does with an entry is decided by path-sensitive variant propagation
+(absint.py) started from "the entry just popped is <what the element producer queues> / <what the token producer queues> /
+nothing".
+"""
 import re
 from core import *  # noqa
 from roles import *  # noqa
-import roles, shared, symex
+import roles, shared, symex, inline, absint
 
-VD = r"std::collections::VecDeque::<T, A>::(\w+)$|std::collections::VecDeque::<T>::(\w+)$"
+DEQUE_RX = r"std::collections::VecDeque::<T(?:, A)?>::(\w+)$"
 DEQUE_FORBIDDEN = {"push_front", "pop_back", "insert", "remove", "swap", "swap_remove_back", "swap_remove_front", "drain", "retain",
                    "retain_mut", "clear", "truncate", "rotate_left", "rotate_right", "append", "split_off", "make_contiguous", "resize",
                    "resize_with", "extend", "iter_mut", "get_mut", "front_mut", "back_mut", "as_mut_slices", "range_mut", "sort", "binary_search",
@@ -13,13 +21,56 @@ DEQUE_FORBIDDEN = {"push_front", "pop_back", "insert", "remove", "swap", "swap_r
                    "front", "back", "get", "iter", "contains", "range", "as_slices", "index"}
 FORBIDDEN_UNDER_LOCK = {"BLOCK-IO", "CHAN-RECV", "WAIT-TURN-W", "WAIT-TURN-R", "SLEEP", "JOIN", "SPAWN", "USER-CALLBACK", "DYN-UNKNOWN", "FNPTR", "FS", "NET-CTL"}
 
+ENQUEUE = {"push_back", "push_front", "insert", "extend", "append"}
 
-def mq_fns(facts):
-    return [f for k, f in sorted(facts.local_fns.items()) if f.rec.get("impl_self_adt") == MQ and f.rec["def_kind"] == "AssocFn"]
+STD_SMALL = re.compile(r"^std::(option::Option|result::Result)::<|^std::mem::(swap|replace|take)$|^std::cmp::Ordering::"
+                       r"|^<std::(option::Option|result::Result)<.*> as std::ops::(Try|FromResidual)")
+
+
+def std_small(d):
+    return bool(STD_SMALL.search(d))
+
+
+ELEM = ("sym", "queued-value")
+
+
+def find_queue_adt(facts):
+    """the monitor type: a local struct with a `Mutex<VecDeque<..>>` field and a `Condvar` field"""
+    out = []
+    for aid, a in sorted(facts.adts.items()):
+        if a["kind"] != "Struct":
+            continue
+        fs = a["variants"][0]["fields"]
+        dq = [x["name"] for x in fs if re.match(r"^std::sync::Mutex<std::collections::VecDeque<", x["ty"])]
+        cv = [x["name"] for x in fs if x["ty"] == "std::sync::Condvar"]
+        if len(dq) == 1 and len(cv) == 1:
+            out.append((aid, dq[0], cv[0]))
+    if len(out) > 1:
+        # the request queue is the monitor the Server itself holds (the task pool has one of its own)
+        srv = facts.adts.get(SERVER)
+        if srv:
+            held = [x for x in out if any(x[0] in fl["ty"] for fl in srv["variants"][0]["fields"])]
+            if held:
+                out = held
+    if len(out) != 1:
+        raise CheckerError("queue rules: expected exactly one monitor type (Mutex<VecDeque<_>> + Condvar), found %s" % [x[0] for x in out])
+    return out[0]
+
+
+def dq_calls(f, name=None):
+    out = []
+    for bb, t in f.calls():
+        m = re.search(DEQUE_RX, call_name(t))
+        if m and (name is None or m.group(1) == name):
+            out.append((bb, m.group(1)))
+    return out
 
 
 def deque_calls(f, name):
-    return [bb for bb, t in f.calls() if re.search(r"VecDeque::<T(, A)?>::%s$" % name, call_name(t))]
+    if name == "push_back":
+        # any way of putting an entry into the deque counts as queueing it (the FIFO census objects to the ones that are not push_back)
+        return [bb for bb, n in dq_calls(f) if n in ENQUEUE]
+    return [bb for bb, n in dq_calls(f, name)]
 
 
 def wait_calls(f):
@@ -30,58 +81,123 @@ def notify_calls(f):
     return [bb for bb, t in f.calls() if call_is(t, *CV_NOTIFY)]
 
 
-def control_switch(f, after_bb):
-    """the switch on the Control<T> discriminant that examines the value popped at after_bb.
-    -> (switch_bb, {variant: target}, none_target)"""
-    t = f.term(after_bb)
-    dl = t["dest"]["l"]
-    # locals the popped value (or its payload) is moved into
-    derived = {dl}
-    work = [dl]
-    while work:
-        l = work.pop()
-        for u in f.uses().get(l, []):
-            if u[0] == "stmt" and u[4] in ("move", "copy") and not u[3]["lhs"]["p"] and u[3]["lhs"]["l"] not in derived:
-                derived.add(u[3]["lhs"]["l"]); work.append(u[3]["lhs"]["l"])
-    none_t = None
-    for bb in sorted(f.reach([t["target"]], unwind=False)):
-        sw = switch_on_discr(f, bb)
-        if not sw:
-            continue
-        rv, m, otherwise, rest = sw
-        if rv["pl"]["l"] not in derived:
-            continue
-        if rv.get("adt") == "std::option::Option" and not rv["pl"]["p"] and none_t is None:
-            none_t = m.get("None", otherwise if "None" in rest else None)
-        if rv.get("adt") == CTRL:
-            mm = dict(m)
-            for r in rest:
-                mm[r] = otherwise
-            return bb, mm, none_t
-    return None
+class QueueModel:
+    def __init__(self, facts):
+        self.facts = facts
+        self.adt, self.dq_field, self.cv_field = find_queue_adt(facts)
+        self.methods = [f for k, f in sorted(facts.local_fns.items()) if f.rec.get("impl_self_adt") == self.adt and f.rec["def_kind"] == "AssocFn"]
+        mids = {m.id for m in self.methods}
+        self.roots = []
+        for m in self.methods:
+            callers = facts.callers_of(m.id)
+            outside = [g for g, bb, t in callers if g.rec.get("impl_self_adt") != self.adt]
+            if outside or (not callers and m.rec.get("vis_pub")):
+                self.roots.append(m)
+        self.inl = {m.id: inline.inlined(facts, m.id, extern_ok=std_small) for m in self.roots}
+        self.producers = {}   # root id -> list of (push bb, entry term, kind 'elem'|'token'|'?')
+        self.consumers = []   # root ids with a pop_front
+        for m in self.roots:
+            f = self.inl[m.id]
+            if deque_calls(f, "push_back"):
+                self.producers[m.id] = self._producer(f)
+            if deque_calls(f, "pop_front"):
+                self.consumers.append(m.id)
 
+    def _producer(self, f):
+        """abstract paths of a producer: what is queued and how often"""
+        out = []
+        pushes = set(deque_calls(f, "push_back"))
+        paths = absint.explore(f, 0)
+        for p in paths:
+            if p.end[0] in ("diverge", "resume", "terminate", "unreachable"):
+                continue
+            evs = [e for e in p.events if e[1] == "call" and e[0] in pushes]
+            entries = []
+            for e in evs:
+                term = e[3][1] if len(e[3]) > 1 else ("unknown",)
+                params = [x for x in absint.walk_terms(term) if x[0] == "init" and len(x[1]) >= 1 and isinstance(x[1][0], int) and 2 <= x[1][0] <= f.argc]
+                if params:
+                    kind = "elem"
+                    term = absint.subst(term, [(params[0], ELEM)])
+                elif any(x[0] in ("init", "call", "unknown", "field", "deref") for x in absint.walk_terms(term)):
+                    kind = "?"
+                else:
+                    kind = "token"
+                entries.append((e[0], term, kind))
+            out.append((p, entries))
+        return out
+
+    def entry_shapes(self, kind):
+        seen, out = set(), []
+        for rid, paths in sorted(self.producers.items()):
+            for p, entries in paths:
+                for bb, term, k in entries:
+                    if k == kind and repr(term) not in seen:
+                        seen.add(repr(term))
+                        out.append((rid, term))
+        return out
+
+    def producer_roots(self, kind):
+        return sorted({rid for rid, paths in self.producers.items() for p, entries in paths for bb, term, k in entries if k == kind})
+
+    def consume(self, rid, pop_bb, entry):
+        """abstract paths of consumer `rid` after the pop at pop_bb returned `entry` (a term for Option<Entry>)"""
+        f = self.inl[rid]
+        t = f.term(pop_bb)
+        st = symex.Sym(f)
+        st.write_key(pl_key(t["dest"]), entry)
+        def stop(bb, t2, st2):
+            if t2["t"] != "call":
+                return None
+            n = call_name(t2)
+            m = re.search(DEQUE_RX, n)
+            if m:
+                return "deque:" + m.group(1)
+            if call_is(t2, CV_WAIT, CV_WAIT_T):
+                return "wait"
+            return None
+        return absint.explore(f, t["target"], st, stop=stop)
+
+
+def model(facts):
+    if not hasattr(facts, "_queue_model"):
+        facts._queue_model = QueueModel(facts)
+    return facts._queue_model
+
+
+def mq_fns(facts):
+    return model(facts).methods
+
+
+def _roots(ctx):
+    m = model(ctx.facts)
+    return [(r, m.inl[r.id]) for r in m.roots]
+
+
+# ------------------------------------------------------------------------------------------------
 
 def rule_notify_after_push(ctx, rule):
     """DOM: every push_back on the queue is followed by a notify before the function returns"""
     n = 0
-    for f in mq_fns(ctx.facts):
+    m = model(ctx.facts)
+    cv_fields = set()
+    for r, f in _roots(ctx):
         pbs = deque_calls(f, "push_back")
         if not pbs:
             continue
-        ctx.touch(f, calls=len(pbs))
+        ctx.touch(r, calls=len(pbs))
         nots = set(notify_calls(f))
         for i, pb in enumerate(pbs):
             n += 1
             reach = f.reach([f.normal_target(pb)], blocked=nots, unwind=False)
-            ok = not any(r in reach for r in f.returns())
+            ok = not any(x in reach for x in f.returns())
             ctx.paths += 1
-            ctx.ob(rule, "%s|push_back-then-notify|%d" % (f.id, i), "every element or token queued is followed by a condvar notification before the lock is released",
+            ctx.ob(rule, "%s|push_back-then-notify|%d" % (r.id, i), "every element or token queued is followed by a condvar notification before the lock is released",
                    ok, f.loc(pb), None if ok else "path from push_back to return without notify_*: %s" % f.path([f.normal_target(pb)], f.returns(), blocked=nots, unwind=False))
-            # the notification targets this queue's condvar
-            for nb in nots:
-                o = f.origin(f.term(nb)["args"][0])
-                okc = "condvar" in origin_fields(o)
-                ctx.ob(rule, "%s|notify-own-condvar" % f.id, "the notification goes to the queue's own condvar", okc, f.loc(nb))
+        for nb in nots:
+            o = f.origin(f.term(nb)["args"][0])
+            okc = m.cv_field in origin_fields(o)
+            ctx.ob(rule, "%s|notify-own-condvar" % r.id, "the notification goes to the queue's own condvar (the one its consumers wait on)", okc, f.loc(nb))
     return n
 
 
@@ -89,19 +205,24 @@ def rule_wait_protocol(ctx, rule):
     """HANDOFF(ii): predicate checked before waiting, wait inside a loop, and every path from a
     wake-up to a return re-checks the queue unless the wait reported a timeout"""
     n = 0
-    for f in mq_fns(ctx.facts):
+    m = model(ctx.facts)
+    for r, f in _roots(ctx):
         ws = wait_calls(f)
         if not ws:
             continue
-        ctx.touch(f, calls=len(ws))
+        ctx.touch(r, calls=len(ws))
         pops = set(deque_calls(f, "pop_front"))
-        ctx.require(pops, "%s: %s waits but never pops" % (rule, f.id))
+        if not pops:
+            ctx.ob(rule, "%s|waits-for-the-queue" % r.id, "a method that waits on the queue's condvar examines the queue", False, "%s:%d" % (f.file, f.line))
+            continue
         for i, w in enumerate(ws):
             n += 1
-            key = "%s|wait%d" % (f.id, i)
+            key = "%s|wait%d" % (r.id, i)
             ctx.ob(rule, key + "|in-loop", "the condvar wait sits in a loop", f.in_loop(w), f.loc(w))
             ctx.ob(rule, key + "|predicate-first", "the queue is examined before the thread goes to sleep",
                    any(f.dominates(p, w, unwind=False) for p in pops), f.loc(w))
+            o = f.origin(f.term(w)["args"][0])
+            ctx.ob(rule, key + "|own-condvar", "the wait is on the queue's own condvar", m.cv_field in origin_fields(o), f.loc(w))
             # timed_out() == true edges are exempt
             exempt = set()
             for bb, t in f.calls():
@@ -111,89 +232,148 @@ def rule_wait_protocol(ctx, rule):
                         exempt.add(bs[1])
             start = [f.normal_target(w)]
             reach = f.reach(start, blocked=pops | exempt, unwind=False)
-            bad = [r for r in f.returns() if r in reach]
+            bad = [x for x in f.returns() if x in reach]
             ctx.paths += 1
             ok = not bad
             ctx.ob(rule, key + "|recheck-after-wake", "a thread woken by a notification looks at the queue before it leaves (otherwise the item it was woken for stays queued while other receivers sleep)",
                    ok, f.loc(w), None if ok else "path from the wake-up to `return` without pop_front and not on the timed_out()==true edge: blocks %s" % f.path(start, bad, blocked=pops | exempt, unwind=False))
-            # the mutex re-acquired by the wait is the guard used afterwards (guard flows back)
     return n
 
 
+def _ret_str(p):
+    if p.end[0] == "return":
+        return "returns " + symex.sym_str(p.ret())
+    if p.end[0] == "stop":
+        return "goes on to " + p.end[2]
+    return p.end[0]
+
+
 def rule_no_loss(ctx, rule):
-    """every popped element is moved into the returned Some(..)"""
+    """every popped element is what the consumer returns (as `Some(element)`), whatever the entry representation"""
     n = 0
-    for f in mq_fns(ctx.facts):
+    m = model(ctx.facts)
+    elems = m.entry_shapes("elem")
+    if not elems:
+        ctx.ob(rule, "producers|element-shape", "some API method of the queue queues its argument", False, m.adt)
+        return 0
+    for rid in m.consumers:
+        f = m.inl[rid]
         for i, pb in enumerate(deque_calls(f, "pop_front")):
-            cs = control_switch(f, pb)
-            ctx.require(cs is not None, "%s: cannot find the match on the popped Control in %s" % (rule, f.id))
-            sw, m, none_t = cs
             ctx.touch(f)
             n += 1
-            elem = m.get("Elem")
-            ctx.require(elem is not None, "%s: no Elem arm in %s" % (rule, f.id))
-            deliver = set()
-            for bb, j, s in f.assigns():
-                if s["lhs"] == {"l": 0, "p": []} and s["rhs"]["rv"] == "agg" and s["rhs"].get("variant") == "Some":
-                    o = f.origin(s["rhs"]["ops"][0])
-                    if any(x[0] == "downcast" and x[2] == "Elem" for x in origin_walk(o)):
-                        deliver.add(bb)
-            pops = set(deque_calls(f, "pop_front"))
-            reach = f.reach([elem], blocked=deliver, unwind=False)
-            ok = bool(deliver) and not any(r in reach for r in f.returns()) and not (reach & pops)
-            ctx.paths += 1
-            ctx.ob(rule, "%s|pop%d|elem-returned" % (f.id, i), "a dequeued element is always returned to the caller (never dropped, re-queued or skipped)",
-                   ok, f.loc(pb), None if ok else "Elem arm can reach return/pop_front without `return Some(elem)`")
+            bad = []
+            for prod, shape in elems:
+                paths = m.consume(rid, pb, ("some", shape))
+                ctx.paths += len(paths)
+                for p in paths:
+                    if p.end[0] in ("diverge", "resume", "terminate", "unreachable"):
+                        continue
+                    if not (p.end[0] == "return" and p.ret() == ("some", ELEM)):
+                        bad.append(_ret_str(p))
+            ok = not bad
+            ctx.ob(rule, "%s|pop%d|elem-returned" % (rid, i), "a dequeued element is always returned to the caller (never dropped, re-queued, skipped or reported as nothing)",
+                   ok, f.loc(pb), None if ok else "after popping an element: %s" % bad[:3])
+            # an empty queue never yields a value
+            paths = m.consume(rid, pb, ("none",))
+            bad = [_ret_str(p) for p in paths if p.end[0] == "return" and p.ret() != ("none",)]
+            ctx.ob(rule, "%s|pop%d|empty-yields-nothing" % (rid, i), "an empty queue makes the consumer wait or return nothing", not bad, f.loc(pb), None if not bad else str(bad[:3]))
+    return n
+
+
+def rule_tokens(ctx, rule):
+    """one token per call; a token ends the receive call that takes it, which returns nothing; tokens are distinguishable from elements"""
+    n = 0
+    m = model(ctx.facts)
+    toks = m.entry_shapes("token")
+    elems = m.entry_shapes("elem")
+    unk = m.entry_shapes("?")
+    ctx.ob(rule, "producers|shapes-known", "every entry queued is either built around the producer's argument (an element) or a constant (an unblock token)",
+           not unk and bool(toks) and bool(elems), m.adt, None if not unk else str([(r, symex.sym_str(t)) for r, t in unk]))
+    for (r1, t1) in toks:
+        for (r2, t2) in elems:
+            ok = absint.variant_of(t1) is not None and absint.variant_of(t1) != absint.variant_of(t2)
+            ctx.ob(rule, "token-vs-element|%s|%s" % (r1, r2), "a token can be told from an element by its variant", ok, m.adt, "%s vs %s" % (symex.sym_str(t1), symex.sym_str(t2)))
+    for rid in m.consumers:
+        f = m.inl[rid]
+        for i, pb in enumerate(deque_calls(f, "pop_front")):
+            for prod, shape in toks:
+                n += 1
+                paths = [p for p in m.consume(rid, pb, ("some", shape)) if p.end[0] not in ("diverge", "resume", "terminate", "unreachable")]
+                ctx.paths += len(paths)
+                again = [_ret_str(p) for p in paths if p.end[0] != "return"]
+                ctx.ob(rule, "%s|pop%d|token-ends-call" % (rid, i), "after taking an unblock token the receive call returns without popping or waiting again", not again and bool(paths), f.loc(pb),
+                       None if not again else str(again[:3]))
+                notnone = [_ret_str(p) for p in paths if p.end[0] == "return" and p.ret() != ("none",)]
+                ctx.ob(rule, "%s|pop%d|token-returns-none" % (rid, i), "a token is reported as `None`, never as an element", not notnone and bool(paths), f.loc(pb), None if not notnone else str(notnone[:3]))
+    return n
+
+
+def rule_one_entry_per_call(ctx, rule, kind):
+    """a producer queues exactly one entry on every returning path"""
+    m = model(ctx.facts)
+    n = 0
+    for rid in m.producer_roots(kind):
+        f = m.inl[rid]
+        bad = []
+        for p, entries in m.producers[rid]:
+            if p.end[0] == "cut" or len(entries) != 1 or entries[0][2] != kind:
+                bad.append("%s: %d entries queued" % (p.end[0], len(entries)))
+        n += 1
+        ctx.ob(rule, "%s|one-%s" % (rid, "token" if kind == "token" else "element"), "%s queues exactly one %s per call (one push_back on every path, not in a loop)" % (short(rid), "token" if kind == "token" else "element"),
+               not bad, "%s:%d" % (f.file, f.line), None if not bad else str(bad[:3]))
     return n
 
 
 def rule_fifo_census(ctx, rule):
     n = 0
-    for f in mq_fns(ctx.facts):
-        for bb, t in f.calls():
-            m = re.search(r"VecDeque::<T(?:, A)?>::(\w+)$", call_name(t))
-            if not m:
+    m = model(ctx.facts)
+    seen = set()
+    for f in list(m.methods) + [m.inl[r.id] for r in m.roots]:
+        for bb, name in dq_calls(f):
+            src = f.src_of(bb)
+            if (src, name) in seen:
                 continue
+            seen.add((src, name))
             n += 1
             ctx.call_sites += 1
-            name = m.group(1)
-            ctx.ob(rule, "%s|deque-%s" % (f.id, name), "the queue is only appended at the back and consumed at the front (FIFO); no other mutator and no peeking accessor is used",
+            ctx.ob(rule, "%s|deque-%s" % (src, name), "the queue is only appended at the back and consumed at the front (FIFO); no other mutator and no peeking accessor is used",
                    name not in DEQUE_FORBIDDEN, f.loc(bb), None if name not in DEQUE_FORBIDDEN else "forbidden deque operation %s" % name)
-    # the queue field is reachable only from MessagesQueue's own methods
-    for f, bb, kind in ctx.facts.field_reads(MQ, "queue"):
-        ctx.ob(rule, "queue-field|%s" % f.id, "the deque is touched only by MessagesQueue's methods", f.rec.get("impl_self_adt") == MQ, f.loc(bb))
+    # the deque is reachable only from the monitor's own methods
+    for f, bb, kind in ctx.facts.field_reads(m.adt, m.dq_field):
+        ctx.ob(rule, "queue-field|%s" % f.id, "the deque is touched only by the queue type's own methods", f.rec.get("impl_self_adt") == m.adt, f.loc(bb))
     return n
 
 
 def rule_under_lock_effects(ctx, rule):
     facts = ctx.facts
     roles.bind(facts)
+    m = model(facts)
     n = 0
-    for f in mq_fns(facts):
+    for r, f in _roots(ctx):
         locks = f.call_blocks(lambda t: call_is(t, LOCK))
         if not locks:
             continue
-        insts = [i for i in facts.instances_of(f.id) if not i["generic"]]
-        ctx.require(insts, "%s: no monomorphic instance of %s" % (rule, f.id))
-        for inst in insts:
-            for bb, t in f.calls():
-                if f.blocks[bb]["cleanup"]:
-                    continue
-                if not any(f.dominates(l, bb, unwind=False) for l in locks) or bb in locks:
-                    continue
-                n += 1
-                ctx.call_sites += 1
-                eff = facts.call_effects(inst, bb) & FORBIDDEN_UNDER_LOCK
-                ctx.ob(rule, "%s|under-lock|%s" % (f.id, short(call_name(t))), "while the queue lock is held nothing blocks on I/O, channels, other threads or user code",
-                       not eff, f.loc(bb), None if not eff else "effects %s via %s" % (sorted(eff), " -> ".join(facts.effect_witness(
-                           [to for _, _, to, _ in facts.inst_callees(inst, bb) if to is not None][0], sorted(eff)[0])[:6])))
-            for bb, t in f.drops():
-                if f.blocks[bb]["cleanup"] or not any(f.dominates(l, bb, unwind=False) for l in locks):
-                    continue
-                if "MutexGuard" in t["ty"]:
-                    continue
-                n += 1
-                eff = facts.call_effects(inst, bb) & FORBIDDEN_UNDER_LOCK
-                ctx.ob(rule, "%s|under-lock|drop %s" % (f.id, short(t["ty"])[:60]), "no value with a blocking destructor is dropped while the queue lock is held",
-                       not eff, f.loc(bb), None if not eff else "effects %s" % sorted(eff))
+        if getattr(f, "root_inst", None) is None or f.root_inst.get("generic"):
+            # an API method of the queue nobody calls: there is no instantiation whose effects could be asked for
+            ctx.note("%s: %s has no monomorphic instance (not called); skipped" % (rule, r.id))
+            continue
+        for bb, t in f.calls():
+            if f.blocks[bb]["cleanup"]:
+                continue
+            if not any(f.dominates(l, bb, unwind=False) for l in locks) or bb in locks:
+                continue
+            n += 1
+            ctx.call_sites += 1
+            eff = facts.effects_at(f, bb) & FORBIDDEN_UNDER_LOCK
+            ctx.ob(rule, "%s|under-lock|%s" % (r.id, short(call_name(t))), "while the queue lock is held nothing blocks on I/O, channels, other threads or user code",
+                   not eff, f.loc(bb), None if not eff else "effects %s" % sorted(eff))
+        for bb, t in f.drops():
+            if f.blocks[bb]["cleanup"] or not any(f.dominates(l, bb, unwind=False) for l in locks):
+                continue
+            if "MutexGuard" in t["ty"]:
+                continue
+            n += 1
+            eff = facts.effects_at(f, bb) & FORBIDDEN_UNDER_LOCK
+            ctx.ob(rule, "%s|under-lock|drop %s" % (r.id, short(t["ty"])[:60]), "no value with a blocking destructor is dropped while the queue lock is held",
+                   not eff, f.loc(bb), None if not eff else "effects %s" % sorted(eff))
     return n
